@@ -4,6 +4,7 @@ import (
 	"bytes"
 	"fmt"
 	"strings"
+	"time"
 
 	"rcproxy/core/zz_verif/world"
 )
@@ -141,7 +142,87 @@ func c11Scenarios(tier string) []*world.Scenario {
 			}
 		}
 	}
+	// the error reply shares a backend read with the reply of ANOTHER client whose connection goes away while its reply is
+	// delivered (QUIT pipelined behind its request / it hung up / it reset): the error must still reach its own client
+	for _, how := range []string{"quit", "fin", "rst"} {
+		for _, ei := range []int{0, 3} {
+			for _, victimKind := range []string{"get", "mget"} {
+				b := 2
+				if tier == "thorough" {
+					b = 4
+				}
+				out = append(out, c11Neighbour(how, victimKind, ei, b))
+			}
+		}
+	}
 	return out
+}
+
+func c11Neighbour(how, victimKind string, errIdx, bound int) *world.Scenario {
+	e := c11Errors[errIdx]
+	sc := &world.Scenario{Nodes: T3m(), Bound: bound, Horizon: 300, Family: "neighbour-closes-in-same-read", CoalesceChoice: true, FreeKinds: []string{"coalesce"}}
+	// client 0 (the neighbour) is ahead of client 1 on node A's connection
+	n0 := []Req{GetReq(keysA[1])}
+	if how == "quit" {
+		n0 = append(n0, QuitReq())
+	}
+	cs0 := ClientOf(n0, true)
+	if how != "quit" {
+		cs0.CloseAfter, cs0.CloseRST = 1, how == "rst"
+	}
+	var v Req
+	if victimKind == "get" {
+		v = GetReq(keysA[0])
+		v.Expect = []byte(e)
+	} else {
+		v = MGetReq(keysA[0], keysB[0])
+		v.Expect = nil
+	}
+	follow := GetReq(keysB[3])
+	cs1 := ClientOf([]Req{v, follow}, false)
+	cs1.Chunks[1].WaitReplies = 1
+	// the victim's request is only sent once the neighbour's is on its way, so that it queues behind it
+	cs1.Chunks[0].Gate = func(w *world.World) bool { return len(w.DataCmds(AddrA)) >= 1 }
+	sc.Clients = []world.ClientSpec{cs0, cs1}
+	bad := keysA[0]
+	held := keysA[1]
+	sc.Reply = func(w *world.World, bc *world.BConn, args [][]byte) ([]byte, int) {
+		if bc.Addr == AddrA && hasKey(args, bad) {
+			return []byte(e), 0
+		}
+		if hasKey(args, held) {
+			return world.ValueOf([]byte(held)), 1 // released by the clock tick, when the victim's error reply is ready behind it
+		}
+		return nil, 0
+	}
+	sc.Ticks = []time.Duration{time.Millisecond}
+	sc.TickGate = func(w *world.World) bool { return len(w.DataCmds(AddrA)) >= 2 }
+	sc.CrashSig = victimKind + "-fragment-error-panics"
+	sc.Name = fmt.Sprintf("C11/neighbour-%s/%s/%s/d%d", how, victimKind, strings.Fields(e)[0], bound)
+	sc.Check = func(w *world.World) []world.Violation {
+		c := w.Clients[1]
+		rs, rest, malformed := world.SplitReplies(c.Received)
+		if malformed || len(rest) > 0 {
+			return []world.Violation{{Sig: "corrupt", Msg: fmt.Sprintf("victim stream %q", c.Received)}}
+		}
+		if len(rs) == 0 {
+			return []world.Violation{{Sig: victimKind + "-fragment-error-stalls", Msg: fmt.Sprintf("node A answered %q for the victim's request in the same read as the reply of a client whose connection went away (%s); the victim never got a reply", e, how)}}
+		}
+		if victimKind == "get" && !bytes.Equal(rs[0], []byte(e)) {
+			return []world.Violation{{Sig: "single-key-error-altered", Msg: fmt.Sprintf("victim received %q for a request the node answered with %q", rs[0], e)}}
+		}
+		if victimKind != "get" && !world.IsError(rs[0]) {
+			return []world.Violation{{Sig: "mget-fragment-error-becomes-array", Msg: fmt.Sprintf("victim received %q although node A answered its fragment with %q", rs[0], e)}}
+		}
+		if len(rs) < 2 {
+			return []world.Violation{{Sig: "later-request-unanswered-after-" + victimKind + "-error", Msg: fmt.Sprintf("victim's follow-up request was never answered (stream %q)", c.Received)}}
+		}
+		if !bytes.Equal(rs[1], follow.Expect) || len(rs) > 2 {
+			return []world.Violation{{Sig: "corrupt", Msg: fmt.Sprintf("victim stream %q", c.Received)}}
+		}
+		return nil
+	}
+	return sc
 }
 
 // ---------------------------------------------------------------------------------------------
@@ -364,7 +445,7 @@ func c13Scenarios(tier string) []*world.Scenario {
 
 func init() {
 	register(&Check{ID: "C11", Level: "fault_enumeration",
-		Rule:      "error menu (ERR, WRONGTYPE, LOADING, CLUSTERDOWN, TRYAGAIN, CROSSSLOT, READONLY, OOM, MASTERDOWN, BUSY) x request kinds (single-key GET; MGET/DEL/MSET over 2 and 3 fragments) x EVERY non-empty subset of fragments answering with the error x all routing orders x all arrival orders (unbounded interleavings; bound 3 for 3-fragment quick tier), followed by a GET that must still be served; non-trivial = >= 1 deviation; distinct = observable outcomes",
+		Rule:      "error menu (ERR, WRONGTYPE, LOADING, CLUSTERDOWN, TRYAGAIN, CROSSSLOT, READONLY, OOM, MASTERDOWN, BUSY) x request kinds (single-key GET; MGET/DEL/MSET over 2 and 3 fragments) x EVERY non-empty subset of fragments answering with the error x all routing orders x all arrival orders (unbounded interleavings; bound 3 for 3-fragment quick tier), followed by a GET that must still be served; non-trivial = >= 1 deviation; distinct = observable outcomes; plus: the error reply arrives in the same backend read as the reply of ANOTHER client whose connection goes away while that reply is delivered (QUIT pipelined behind its request, FIN, RST), how many replies one read carries being an enumerated choice: the error still reaches its own client and its follow-up is served",
 		Scenarios: c11Scenarios, BudgetQuick: 90, BudgetThorough: 1200,
 		Assumptions: []string{"error texts are representative Redis error lines; the property quantifies over the error class, which the proxy treats uniformly (first byte '-')"}})
 	register(&Check{ID: "C13", Level: "model_checking",
